@@ -33,13 +33,13 @@ structure SendOpts where
 def finalPred (cfg : Cfg) (interim : List (Bytes → Bool)) : Bytes → Bool :=
   if interim.isEmpty then promptPred cfg else anyPromptPred cfg.depth (cfg.promptP :: interim)
 
-/-- `ReadUntilFuzzy` returns at once, without reading, when the input is empty
-(`if len(b) == 0 { return nil, nil }`); `ReadUntilExplicit` has no such exit -/
-def skipsEcho (cfg : Cfg) (cmd : Bytes) : Bool := !cfg.exact && cmd.isEmpty
+/-- `ReadUntilFuzzy` and `ReadUntilExplicit` both return at once, without reading, when the input
+is empty (`if len(b) == 0 { return nil, nil }`) -/
+def skipsEcho (cmd : Bytes) : Bool := cmd.isEmpty
 
 /-- the first read of `SendInputB`: until the input is seen (fuzzy or exact) -/
 def echoRead (cfg : Cfg) (cmd : Bytes) (q : List Bytes) : Option (Bytes × List Bytes) :=
-  if skipsEcho cfg cmd then some ([], q) else readUntil (echoPred cfg cmd) q []
+  if skipsEcho cmd then some ([], q) else readUntil (echoPred cfg cmd) q []
 
 /-- `Channel.SendInputB` with its per-operation options against a causal device -/
 def sendInputO (cfg : Cfg) (o : SendOpts) (s : Sess) (x : Exchange) : Option (Bytes × Sess) :=
@@ -96,9 +96,9 @@ def promptQueued (cfg : Cfg) (stale : Bytes) : Bool :=
   !stale.isEmpty && exactAtB (promptPred cfg) stale
 
 /-- bytes still queued when the second read of a send starts: nothing — the echo read swallowed
-everything up to the end of the echo — unless the echo read was skipped (empty input, fuzzy mode) -/
-def sendPre (cfg : Cfg) (stale : Bytes) (x : Exchange) : Bytes :=
-  if skipsEcho cfg x.cmd then stale ++ x.echo.flatten else []
+everything up to the end of the echo — unless the echo read was skipped (empty input) -/
+def sendPre (_cfg : Cfg) (stale : Bytes) (x : Exchange) : Bytes :=
+  if skipsEcho x.cmd then stale ++ x.echo.flatten else []
 
 /-- bytes an operation leaves in the queue when it is well formed: an eager send leaves the whole
 answer of the device, a `GetPrompt` answered from the queue leaves the device's reaction to its
